@@ -26,7 +26,7 @@ TECHNIQUE = "metamorphic property-based testing: permutation / subset / duplicat
 LEVEL_TEXT = "Exploration over generated models and batch rewritings; 5 simulations per case compared agent by agent."
 
 PROFILE_DET = Profile(name="indep_det", allow_stoch=False, max_periods=3, p_filter=0.7, max_points=15_000,
-                      force_sparse_and_dense_choice=0.3)
+                      force_sparse_and_dense_choice=0.3, p_near_tie=0.2)
 PROFILE_STO = Profile(name="indep_sto", p_stoch=0.7, max_periods=3, p_filter=0.6, max_points=15_000)
 
 
